@@ -8,7 +8,7 @@ import "fmt"
 func st(kind, name, opcode string, fields ...*Field) *Def {
 	return &Def{Rec: &Record{Kind: kind, Name: name, Opcode: opcode, Fields: fields}}
 }
-func fd(t *Ty, name string) *Field             { return &Field{Type: t, Name: name} }
+func fd(t *Ty, name string) *Field              { return &Field{Type: t, Name: name} }
 func mfd(idx string, t *Ty, name string) *Field { return &Field{Index: idx, Type: t, Name: name} }
 func br(disc string, kind, name string, fields ...*Field) *Branch {
 	return &Branch{Disc: disc, Rec: &Record{Kind: kind, Name: name, Fields: fields}}
@@ -19,7 +19,7 @@ func un(name, opcode string, branches ...*Branch) *Def {
 func en(name, base string, flags bool, opts ...*Opt) *Def {
 	return &Def{En: &Enum{Name: name, Base: base, Flags: flags, Opts: opts}}
 }
-func op(name string, v *Expr) *Opt { return &Opt{Name: name, Val: v} }
+func op(name string, v *Expr) *Opt  { return &Opt{Name: name, Val: v} }
 func co(typ, name, lit string) *Def { return &Def{Co: &Const{Type: typ, Name: name, Lit: lit}} }
 
 // baseRecords: a realistic schema with every record kind, opcodes in all three spellings and terminating recursion
